@@ -208,7 +208,23 @@ func streamEdsReconcile(r *rand.Rand, i int, tier string) *Case {
 		CreationTimestamp: mt(now.Add(-24 * time.Hour)), Annotations: map[string]string{}}}
 	ids := []int{1, 2, 3}
 	curTpl := pick(r, ids...)
-	eds.Spec.Template = tplOf(curTpl)
+	// per case, every template of the history carries the same scheduling constraint (or none), so
+	// that node fitness matters for the nodes the EDS targets and the canary nodes it selects
+	deco := r.Intn(4)
+	tplCase := func(id int) corev1.PodTemplateSpec {
+		t := tplOf(id)
+		switch deco {
+		case 1:
+			t.Spec.NodeSelector = map[string]string{"zone": "a"}
+		case 2:
+			t.Spec.Tolerations = []corev1.Toleration{{Key: "dedicated", Operator: corev1.TolerationOpExists}}
+		}
+		return t
+	}
+	if deco == 1 || deco == 2 {
+		cat = append(cat, "template-scheduling-constraint")
+	}
+	eds.Spec.Template = tplCase(curTpl)
 	eds.Spec.Strategy = defaultedStrategy()
 	hasCanary := r.Intn(4) != 0
 	if hasCanary {
@@ -223,6 +239,12 @@ func streamEdsReconcile(r *rand.Rand, i int, tier string) *Case {
 		}
 		if c.ValidationMode == edsv1.ExtendedDaemonSetSpecStrategyCanaryValidationModeManual {
 			c.Duration, c.NoRestartsDuration = nil, nil
+		}
+		if r.Intn(3) == 0 {
+			c.NodeSelector = &metav1.LabelSelector{MatchLabels: map[string]string{pick(r, "zone", "disk"): pick(r, "a", "ssd")}}
+		}
+		if r.Intn(3) == 0 {
+			c.NodeAntiAffinityKeys = []string{pick(r, "zone", "disk")}
 		}
 		switch r.Intn(4) {
 		case 0:
@@ -267,7 +289,7 @@ func streamEdsReconcile(r *rand.Rand, i int, tier string) *Case {
 	var objs []client.Object
 	var all []*edsv1.ExtendedDaemonSetReplicaSet
 	mk := func(name, ns string, tpl int, edsLabel string) *edsv1.ExtendedDaemonSetReplicaSet {
-		e := newERS(name, tplOf(tpl), now.Add(-time.Duration(pick(r, 20, 300, 900, 4000))*time.Second))
+		e := newERS(name, tplCase(tpl), now.Add(-time.Duration(pick(r, 20, 300, 900, 4000))*time.Second))
 		e.Namespace = ns
 		e.Labels[edsv1.ExtendedDaemonSetNameLabelKey] = edsLabel
 		switch r.Intn(3) {
@@ -349,7 +371,7 @@ func streamEdsReconcile(r *rand.Rand, i int, tier string) *Case {
 	var cpods []canon.Pod
 	nn := 1 + r.Intn(4)
 	for k := 0; k < nn; k++ {
-		n := genNode(r, fmt.Sprintf("n%d", k), false)
+		n := genNode(r, fmt.Sprintf("n%d", k), deco != 0)
 		objs = append(objs, n)
 		cnodes = append(cnodes, canon.CNode(n, testNS, testEDS))
 		if r.Intn(2) == 0 {
